@@ -64,6 +64,8 @@ def value(typ, i, rng=None):
         return struct.pack("<i", (i + 1) * 0x01010101 % 0x7fffffff if rng is None else rng.randrange(-2**31, 2**31))
     if typ == "i64":
         return struct.pack("<q", (i + 1) * 0x0101010101010101 % (2**63 - 1) if rng is None else rng.randrange(-2**63, 2**63))
+    if typ == "i96":
+        return bytes(((i + 1) * 29 + j) % 256 for j in range(12))
     if typ == "f32":
         return struct.pack("<f", float(i) + 0.5)
     if typ == "f64":
@@ -293,13 +295,15 @@ def run_resilient(exe, lines, env=None, shards=None, timeout=3000, max_deaths=30
 # ------------------------------------------------------------------ files from the independent writer (tools/pq.py)
 
 PQ_TYPES = {"i32": ("INT32", 0), "i64": ("INT64", 0), "f32": ("FLOAT", 0), "f64": ("DOUBLE", 0),
-            "bool": ("BOOLEAN", 0), "ba": ("BYTE_ARRAY", 0)}
+            "bool": ("BOOLEAN", 0), "ba": ("BYTE_ARRAY", 0), "i96": ("INT96", 0)}
 PQ_CODEC = {0: "UNCOMPRESSED", 1: "SNAPPY", 2: "GZIP", 6: "ZSTD", 7: "LZ4_RAW"}
 
 
-def pq_bytes(fs, encoding="RLE_DICTIONARY", crc=True, empty_pages=(), rng=None):
+def pq_bytes(fs, encoding="RLE_DICTIONARY", crc=True, empty_pages=(), rng=None, dict_offset="present", page_encodings=None):
     """The same logical file written by tools/pq.py (independent writer): dictionary-encoded chunks, page CRCs,
     optionally an empty data page inserted before page index i of every chunk (empty_pages = set of i).
+    dict_offset="absent": no dictionary_page_offset in the chunk metadata (data_page_offset points at the dictionary
+    page).  page_encodings: list of encodings used by the pages of every chunk in turn (mixed PLAIN / dictionary chunk).
     Returns file bytes."""
     import sys
     from pathlib import Path
@@ -325,14 +329,18 @@ def pq_bytes(fs, encoding="RLE_DICTIONARY", crc=True, empty_pages=(), rng=None):
             if c.typ == "bool" and encoding != "PLAIN":
                 enc = "PLAIN"           # booleans have no dictionary encoding
             pages = []
+            encs = [enc]
+            if page_encodings and c.typ != "bool":
+                encs = list(page_encodings)
             for i, pg in enumerate(ch):           # a page may be empty ([]): a data page with num_values = 0
                 if i in empty_pages:
                     pages.append(pq.PageSpec(0, enc, crc=crc))
-                pages.append(pq.PageSpec(len(pg), enc, crc=crc))
+                pages.append(pq.PageSpec(len(pg), encs[i % len(encs)], crc=crc))
             if len(ch) in empty_pages:
                 pages.append(pq.PageSpec(0, enc, crc=crc))
+            has_dict = any(e in ("RLE_DICTIONARY", "PLAIN_DICTIONARY") for e in encs)
             cols.append(pq.ColumnSpec(defs, [0] * len(rows), vals, pages, codec=PQ_CODEC[fs.codec],
-                                      dictionary="auto" if enc in ("RLE_DICTIONARY", "PLAIN_DICTIONARY") else None))
+                                      dictionary="auto" if has_dict else None, dict_offset=dict_offset, dict_crc=crc))
         rgs.append(pq.RowGroupSpec(len([r for pg in rg[0] for r in pg]), cols))
     spec = pq.FileSpec(root, rgs)
     return pq.write_file(spec, rng or random.Random(1))
@@ -472,4 +480,38 @@ def nested_files(rng, thorough=False):
                     continue
                 out.append(RawFile(f"{label}-{codec}-{enc}-p{maxpages}", data, spec.truth(),
                                    [(lf.max_def, lf.max_rep) for lf in leaves], [".".join(lf.path) for lf in leaves]))
+    return out
+
+
+def parse_nested_token(t):
+    """'r4:1.1.0.1/0.1.0.0/aa.bb.cc' -> (defs, reps, vals)"""
+    body = t.partition(":")[2]
+    d, r, v = body.split("/")
+    return [int(x) for x in d.split(".")], [int(x) for x in r.split(".")], ([] if v == "-" else v.split("."))
+
+
+def reference_cursor_nested(defs, reps, vals, max_def, ops):
+    """the cursor arithmetic for a column with repetition levels / several definition levels: a read of k delivers
+    the next min(k, remaining) level entries and the packed values of those whose definition level is max_def"""
+    out, pos, vpos, n = [], 0, 0, len(defs)
+    for kind, k in ops:
+        if kind in "rqs":
+            cnt = max(min(k, n - pos), 0)
+            dense = sum(1 for d in defs[pos:pos + cnt] if d == max_def)
+            if kind == "s":
+                out.append(f"s{cnt}")
+            elif cnt == 0 or kind == "q":
+                out.append(f"{kind}{cnt}")
+            else:
+                out.append(f"r{cnt}:" + ".".join(map(str, defs[pos:pos + cnt])) + "/" + ".".join(map(str, reps[pos:pos + cnt])) +
+                           "/" + (".".join(vals[vpos:vpos + dense]) if dense else "-"))
+            pos += cnt
+            vpos += dense
+        elif kind == "h":
+            out.append("h1" if pos < n else "h0")
+        elif kind == "m":
+            out.append(f"m{n - pos}")
+        elif kind == "n":
+            out.append("n")
+            pos = vpos = 0
     return out
